@@ -371,7 +371,8 @@ Lemma sps_inv : forall os peers readonly shares p2s st,
     calculate_mappings (o_ex os) (peers2 peers ro) (shares2 shares ro) (smap2 p2s ro) = Some ex /\
     calculate_mappings (o_new os) (peers3 peers ro ex) (shares3 shares ro ex) [] = Some nw /\
     (m' = merged ro ex nw \/
-     exists ho, distribute_homeless os (merged ro ex nw) ho (writable_p2s readonly p2s) = Some m') /\
+     exists ho, ordered (o_homeless os (homeless_of (merged ro ex nw))) (homeless_of (merged ro ex nw)) = Some ho /\
+                distribute_homeless os (merged ro ex nw) ho (writable_p2s readonly p2s) = Some m') /\
     (rr = [] \/ ordered (o_rr os (diffN peers readonly)) (diffN peers readonly) = Some rr) /\
     round_robin rr 0 m' = Some (ps_result st) /\ ps_readonly_phase st = ro.
 Proof.
@@ -390,7 +391,7 @@ Proof.
   exists ro, ex, nw, m', rr. split; [first [exact E1 | reflexivity]|]. split; [first [exact E2 | reflexivity]|]. split; [first [exact E3 | reflexivity]|]. split; [|split; [|split; [exact E6 | reflexivity]]].
   - destruct (homeless_of (merged ro ex nw)) as [|h hs].
     + inversion E4; subst. left. reflexivity.
-    + destruct (ordered (o_homeless os (h :: hs)) (h :: hs)) as [ho|]; [|discriminate]. right. exists ho. exact E4.
+    + destruct (ordered (o_homeless os (h :: hs)) (h :: hs)) as [ho|] eqn:Eo; [|discriminate]. right. exists ho. split; [reflexivity | exact E4].
   - destruct (has_none m'); [right; exact E5 | inversion E5; subst; left; reflexivity].
 Qed.
 
@@ -450,7 +451,7 @@ Proof.
       - left. apply used_shares_In in Hu. destruct Hu as [p Hp]. apply in_map_iff. exists (s, Some p). split; [reflexivity | exact Hp].
       - right. left. destruct (cm_keys _ _ _ _ _ C2) as [K1 [K2 _]]. rewrite K1.
         apply (ordered_complete _ _ _ (diffN_NoDup _ _ Hnd) K2). apply diffN_In. split; assumption. }
-    destruct Hm as [->|[ho Hd]]; [exact Hmerged|].
+    destruct Hm as [->|[ho [_ Hd]]]; [exact Hmerged|].
     apply (proj1 (distribute_homeless_spec _ _ _ _ _ Hd)). exact Hmerged. }
   apply in_map_iff in Hin. destruct Hin as [[s' p] [E Hin]]. cbn [fst] in E. subst s'. exists p. exact Hin.
 Qed.
